@@ -49,7 +49,8 @@ Inductive role := Client | Server.
 
 (* exceptions that can leave EventsProcessor.process *)
 Inductive exn :=
-| ENotImplemented      (* client Handler.accept *)
+| EH2ProtocolError     (* h2.reset_stream on an h2 connection that is already CLOSED *)
+| EH2StreamClosed      (* h2.reset_stream on a stream that is already closed (reset by the peer / by h2) *)
 | EKeyError            (* server Handler.cancel: self._tasks.pop(stream) *)
 | EAttributeError      (* handler reads a field the event class does not have; flush on a deleted transport *)
 | EValueError          (* h2.acknowledge_received_data: negative size / stream id <= 0 *)
@@ -189,11 +190,12 @@ Record state := mk_state {
   st_fail : Z;                 (* connection.streams_failed *)
   st_waiter : bool;            (* connection.stream_close_waiter.is_set() *)
   st_ping : bool;              (* _close_by_ping_handler armed and not cancelled *)
-  st_credit : list (Z * Z)     (* connection.ack(stream_id, size) calls with size <> 0, in order *)
+  st_credit : list (Z * Z);    (* connection.ack(stream_id, size) calls with size <> 0, in order *)
+  st_rst : list Z              (* h2.reset_stream calls made from the input path (client accept), in order *)
 }.
 
 Definition init (r : role) : state :=
-  mk_state r false false (mk_hstate false []) [] 0 0 0 false false [].
+  mk_state r false false (mk_hstate false []) [] 0 0 0 false false [] [].
 
 Inductive result := Ok (s : state) | Raises (e : exn).
 
@@ -220,22 +222,25 @@ Definition map_reg (f : srec -> srec) (l : list (Z * srec)) : list (Z * srec) :=
 
 Definition set_reg (s : state) (r : list (Z * srec)) : state :=
   mk_state (st_role s) (st_closed s) (st_tclosed s) (st_h s) r (st_drecv s) (st_succ s) (st_fail s)
-           (st_waiter s) (st_ping s) (st_credit s).
+           (st_waiter s) (st_ping s) (st_credit s) (st_rst s).
 Definition set_h (s : state) (h : hstate) : state :=
   mk_state (st_role s) (st_closed s) (st_tclosed s) h (st_reg s) (st_drecv s) (st_succ s) (st_fail s)
-           (st_waiter s) (st_ping s) (st_credit s).
+           (st_waiter s) (st_ping s) (st_credit s) (st_rst s).
 Definition set_stats (s : state) (d su f : Z) : state :=
   mk_state (st_role s) (st_closed s) (st_tclosed s) (st_h s) (st_reg s) d su f
-           (st_waiter s) (st_ping s) (st_credit s).
+           (st_waiter s) (st_ping s) (st_credit s) (st_rst s).
 Definition set_waiter (s : state) (b : bool) : state :=
   mk_state (st_role s) (st_closed s) (st_tclosed s) (st_h s) (st_reg s) (st_drecv s) (st_succ s)
-           (st_fail s) b (st_ping s) (st_credit s).
+           (st_fail s) b (st_ping s) (st_credit s) (st_rst s).
 Definition set_ping (s : state) (b : bool) : state :=
   mk_state (st_role s) (st_closed s) (st_tclosed s) (st_h s) (st_reg s) (st_drecv s) (st_succ s)
-           (st_fail s) (st_waiter s) b (st_credit s).
+           (st_fail s) (st_waiter s) b (st_credit s) (st_rst s).
+Definition add_rst (s : state) (sid : Z) : state :=
+  mk_state (st_role s) (st_closed s) (st_tclosed s) (st_h s) (st_reg s) (st_drecv s) (st_succ s)
+           (st_fail s) (st_waiter s) (st_ping s) (st_credit s) (st_rst s ++ [sid]).
 Definition set_credit (s : state) (c : list (Z * Z)) : state :=
   mk_state (st_role s) (st_closed s) (st_tclosed s) (st_h s) (st_reg s) (st_drecv s) (st_succ s)
-           (st_fail s) (st_waiter s) (st_ping s) c.
+           (st_fail s) (st_waiter s) (st_ping s) c (st_rst s).
 
 (* Stream.__terminated__(reason): wrapper.cancel(StreamTerminatedError(reason)) if there is a wrapper *)
 Definition terminated (why : reason) (r : srec) : srec :=
@@ -289,7 +294,7 @@ Definition handler_close (ro : role) (h : hstate) : hstate :=
 Definition close_conn (why : reason) (s : state) : state :=
   mk_state (st_role s) true true (handler_close (st_role s) (st_h s))
            (map_reg (terminated why) (st_reg s))
-           (st_drecv s) (st_succ s) (st_fail s) (st_waiter s) false (st_credit s).
+           (st_drecv s) (st_succ s) (st_fail s) (st_waiter s) false (st_credit s) (st_rst s).
 
 (* ---- connection.ack(stream_id, size) for an unregistered stream:
      if size: h2.acknowledge_received_data(size, stream_id)  -- ValueError for size < 0 or id <= 0
@@ -301,7 +306,43 @@ Definition conn_ack (s : state) (sid size : Z) : result :=
   else Ok (set_credit s (st_credit s ++ [(sid, size)])).
 
 (* ---- the thirteen process_* methods, transcribed one by one *)
-Definition process_request_received (s : state) (e : event) : result :=
+(* What h2 answers to reset_stream(sid) while the events of a batch are being processed.  h2 has
+   consumed the WHOLE chunk before grpclib sees the first event, so its state already reflects the
+   events that come LATER in the same batch: after a GOAWAY the connection state machine is CLOSED
+   and SEND_RST_STREAM is a ProtocolError; after a reset of that stream (by the peer, or by h2 itself
+   on a stream error) the stream is CLOSED and sending on it is a StreamClosedError.  (part of the
+   h2 model; compared with the real h2 on every observed batch) *)
+Definition is_goaway (e : event) : bool := match e with ConnectionTerminated _ => true | _ => false end.
+Definition is_reset_of (sid : Z) (e : event) : bool :=
+  match e with StreamReset s _ _ => s =? sid | _ => false end.
+Definition h2_conn_closed (rest : list event) : bool := existsb is_goaway rest.
+Definition h2_stream_closed (rest : list event) (sid : Z) : bool := existsb (is_reset_of sid) rest.
+Definition h2_reset_stream (rest : list event) (sid : Z) : option exn :=
+  if h2_conn_closed rest then Some EH2ProtocolError
+  else if h2_stream_closed rest sid then Some EH2StreamClosed
+  else None.
+
+(* protocol.Stream.closable: transport not closing, h2 connection state not CLOSED, the h2 stream
+   present and not closed (h2 drops closed streams from its table lazily: missing = closed) *)
+Definition closable (rest : list event) (s : state) (sid : Z) : bool :=
+  negb (st_tclosed s) && negb (h2_conn_closed rest) && negb (h2_stream_closed rest sid).
+
+(* Stream.reset_nowait: h2.reset_stream(id, error_code) and, if write_ready, transport.write *)
+Definition reset_nowait (rest : list event) (s : state) (sid : Z) : result :=
+  match h2_reset_stream rest sid with
+  | Some x => Raises x
+  | None => Ok (add_rst s sid)
+  end.
+
+(* EventsProcessor.release_stream closure: streams.pop(id); stream_close_waiter.set(); ack of the
+   unacked buffer content (nothing for a stream that never got data) *)
+Definition release (s : state) (sid : Z) : state :=
+  match lookup sid (st_reg s) with
+  | None => s
+  | Some _ => set_waiter (set_reg s (remove sid (st_reg s))) true
+  end.
+
+Definition process_request_received (rest : list event) (s : state) (e : event) : result :=
   match f_stream_id e with
   | None => Raises EAttributeError
   | Some sid =>
@@ -309,7 +350,14 @@ Definition process_request_received (s : state) (e : event) : result :=
       let s1 := set_reg s (upd sid (fresh_srec false) (st_reg s)) in
       if f_headers e then
         match st_role s with
-        | Client => Raises ENotImplemented     (* 'Client connection can not accept requests' *)
+        | Client =>
+            (* client Handler.accept:
+                 if stream.closable: stream.reset_nowait(ErrorCodes.REFUSED_STREAM)
+                 release_stream() *)
+            match (if closable rest s1 sid then reset_nowait rest s1 sid else Ok s1) with
+            | Ok s2 => Ok (release s2 sid)
+            | Raises x => Raises x
+            end
         | Server => Ok (set_h s1 (mk_hstate (h_flag (st_h s1))
                                             (h_tasks (st_h s1) ++ [mk_trec sid true false])))
         end
@@ -426,8 +474,8 @@ Definition process_ping_ack_received (s : state) (e : event) : result :=
 Definition process_nop (s : state) (e : event) : result := Ok s.   (* `pass` bodies *)
 
 (* interpretation of the handler NAME found in the generated table *)
-Definition handlers : list (list Z * (state -> event -> result)) :=
-  [ (n_process_request_received, process_request_received);
+Definition handlers (rest : list event) : list (list Z * (state -> event -> result)) :=
+  [ (n_process_request_received, process_request_received rest);
     (n_process_response_received, process_response_received);
     (n_process_remote_settings_changed, process_remote_settings_changed);
     (n_process_settings_acknowledged, process_nop);
@@ -441,8 +489,8 @@ Definition handlers : list (list Z * (state -> event -> result)) :=
     (n_process_ping_received, process_nop);
     (n_process_ping_ack_received, process_ping_ack_received) ].
 
-Definition run_handler (name : list Z) (s : state) (e : event) : result :=
-  match assoc_str name handlers with
+Definition run_handler (rest : list event) (name : list Z) (s : state) (e : event) : result :=
+  match assoc_str name (handlers rest) with
   | Some f => f s e
   | None => Raises EUnknownHandler
   end.
@@ -451,18 +499,20 @@ Definition run_handler (name : list Z) (s : state) (e : event) : result :=
      try: proc = self.processors[event.__class__]
      except KeyError: log.debug(...)            -- no processor: ignored
      except AttributeError: pass                -- processors deleted by close()
-     else: proc(event) *)
-Definition process (s : state) (e : event) : result :=
+     else: proc(event)
+   `rest` = the events that follow in the same batch (h2 has already digested them, see
+   h2_reset_stream); only the client's accept depends on it *)
+Definition process (rest : list event) (s : state) (e : event) : result :=
   if st_closed s then Ok s
   else match assoc_str (class_name e) processors with
        | None => Ok s
-       | Some name => run_handler name s e
+       | Some name => run_handler rest name s e
        end.
 
 Fixpoint run_events (s : state) (evs : list event) : result :=
   match evs with
   | [] => Ok s
-  | e :: r => match process s e with
+  | e :: r => match process r s e with
               | Ok s1 => run_events s1 r
               | Raises x => Raises x
               end
@@ -470,15 +520,16 @@ Fixpoint run_events (s : state) (evs : list event) : result :=
 
 (* H2Protocol.data_received, given what h2 made of the bytes:
      try: events = self.connection.feed(data)
-     except ProtocolError: self.processor.close('Protocol error')
+     except (ProtocolError, UnicodeDecodeError): self.processor.close('Protocol error')
+        (h2 reports a header block it cannot decode with header_encoding='ascii' as UnicodeDecodeError)
      else: flush; for event in events: self.processor.process(event); flush
    The two flushes write what h2 queued; between them only connection.ack makes h2 queue bytes and
    it flushes itself, and nothing runs after a close in mid-batch, so they are no-ops here. *)
-Inductive batch := H2ProtocolError | H2Events (evs : list event).
+Inductive batch := H2ProtocolError | H2UnicodeDecodeError | H2Events (evs : list event).
 
 Definition data_received (s : state) (b : batch) : result :=
   match b with
-  | H2ProtocolError => Ok (close_conn RProtocolError s)
+  | H2ProtocolError | H2UnicodeDecodeError => Ok (close_conn RProtocolError s)
   | H2Events evs => run_events s evs
   end.
 
@@ -494,12 +545,6 @@ Inductive input :=
 | IRead (sid : Z)            (* the application takes one item from the stream's buffer *)
 | IAppCancel (sid : Z)       (* wrapper.cancel by a deadline or by the application *)
 | IServerClose.              (* Server.close(): handler.close() on a live connection *)
-
-Definition release (s : state) (sid : Z) : state :=
-  match lookup sid (st_reg s) with
-  | None => s
-  | Some _ => set_waiter (set_reg s (remove sid (st_reg s))) true
-  end.
 
 Definition step (s : state) (i : input) : result :=
   match i with
